@@ -190,7 +190,8 @@ AddLeaf ==
        /\ \A j \in 1..Len(pool) : pool[j] # Ann(Leaves[k])
        /\ pool' = Append(pool, Ann(Leaves[k])) /\ nops' = nops
 
-CanStep == pool # <<>> /\ nops < MaxOps
+\* with "SubLast" a substitution is the last step of a program (nothing is built on top of it)
+CanStep == pool # <<>> /\ nops < MaxOps /\ ("SubLast" \in Acts => Last.c # "Sub")
 
 DoUn ==
   /\ "Un" \in Acts /\ CanStep
